@@ -46,6 +46,10 @@ Definition literal_value (t : tok) : option val :=
   else if negb (String.eqb (grp t 10) "") then Some (VBool false)
   else None.
 
+(* an integer literal with an exponent above 308 is rejected while the token is built (fix 24efa0a) *)
+Definition literal_rejected (t : tok) : bool :=
+  negb (String.eqb (grp t 2) "") && String.eqb (grp t 5) "" && negb (String.eqb (grp t 7) "") && (308 <? signed_Z (grp t 7)).
+
 (* ---------- the token properties the translator reads ---------- *)
 Definition is_nt (n : nat) (t : tree) : bool := match t with Node m _ _ => Nat.eqb m n | Leaf _ => false end.
 Definition is_leaf (c : nat) (t : tree) : bool := match t with Leaf k => Nat.eqb (tclass k) c | Node _ _ _ => false end.
@@ -74,6 +78,7 @@ Definition emit_operand (t : tree) : emitted :=
   match t with
   | Node _ _ [Leaf k] =>
       if Nat.eqb (tclass k) L_LiteralToken then
+        if literal_rejected k then ERejected else
         match literal_value k with
         | Some (VFloat f) => if f_is_inf f then ERejected else EOk [IAtom (PConst (VFloat f))]
         | Some v => EOk [IAtom (PConst v)] | None => EUnmodelled end
